@@ -224,6 +224,93 @@ def r2_game_stage(ctx):
     ctx.extra["game_stage_rows"] = len(tab)
 
 
+def _material_by_cases(ctx, rid, f, pes):
+    """evaluate_ongoing with branches: read as a piecewise function of the per-side terms g(white), g(black) and the
+    board-wide piece-square term, and compared with itself under the colour swap (g(white) <-> g(black), the
+    piece-square term negated - its own antisymmetry is R1/R2/R5) on a grid of values around every constant the
+    conditions compare with."""
+    import itertools
+    syms = {}
+    def collect(t):
+        for x in leaves(t):
+            if x[0] == "call" and x[1].startswith("inkayaku_"):
+                syms.setdefault(x, None)
+    for pe in pes:
+        collect(pe.ret())
+        for (d, c, b, ty) in pe.conds:
+            collect(d)
+    # outermost symbols only
+    tops = [s for s in syms if not any(s is not o and s in list(leaves(o)) for o in syms)]
+    def side(x):
+        for a in x[2]:
+            for y in leaves(a):
+                if y[0] == "f" and y[2] in ("white", "black"):
+                    return y[2]
+        return None
+    pair, whole = {}, []
+    for s in tops:
+        sd = side(s)
+        if sd is None:
+            whole.append(s)
+            continue
+        twin = [o for o in tops if o is not s and o[1] == s[1] and side(o) not in (None, sd)]
+        if len(twin) != 1:
+            ctx.lost(rid, "evaluate_ongoing has branches and a per-side term without its twin (%s)" % show(s)[:80])
+            return
+        pair[s] = twin[0]
+    if any(w[1] != SIMPLE + "piece_square_value" for w in whole) or not pair:
+        ctx.lost(rid, "evaluate_ongoing has branches over terms that are not per-side values or the piece-square term (%s)" % [show(w)[:50] for w in whole])
+        return
+    consts = set()
+    for pe in pes:
+        for (d, c, b, ty) in pe.conds:
+            for x in leaves(d):
+                if x[0] == "c" and isinstance(x[1], int) and not isinstance(x[1], bool):
+                    consts.add(abs(x[1]))
+    grid = sorted({0, 1, 7} | {v + dlt for v in consts for dlt in (-1, 0, 1) if v + dlt >= 0} | {2 * v + 3 for v in consts})
+    whites = [s for s in pair if side(s) == "white"]
+
+    def value(env):
+        m = {s: ("c", v, "i32", None) for s, v in env.items()}
+        for pe in pes:
+            try:
+                holds = True
+                for (d, c, b, ty) in pe.conds:
+                    v = fold(subst(d, m))
+                    if (v in c[1]) != (c[0] == "in"):
+                        holds = False
+                        break
+                if holds:
+                    return fold(subst(pe.ret(), m))
+            except (Unfoldable, TypeError):
+                return None
+        return None
+    n = 0
+    for combo in itertools.product(grid, repeat=2 * len(whites)):
+        for psv in (0, 13, -13):
+            env, twin_env = {}, {}
+            for i, w in enumerate(whites):
+                a, b_ = combo[2 * i], combo[2 * i + 1]
+                env[w], env[pair[w]] = a, b_
+                twin_env[w], twin_env[pair[w]] = b_, a
+            for s in whole:
+                env[s], twin_env[s] = psv, -psv
+            v1, v2 = value(env), value(twin_env)
+            if v1 is None or v2 is None:
+                ctx.lost(rid, "evaluate_ongoing has branches this rule cannot evaluate")
+                return
+            n += 1
+            if v1 != -v2:
+                ctx.ob(rid, "material-antisymmetric", False,
+                       "evaluate_ongoing is not negated by the colour swap: with %s it returns %d, with the colours exchanged %d (expected %d) - a shortcut or bonus applies to one side only, so the same position scores differently for White and Black" % (
+                           ", ".join("%s(%s)=%d" % (s[1].rsplit("::", 1)[-1], side(s) or "board", v) for s, v in sorted(env.items(), key=lambda kv: (kv[0][1], side(kv[0]) or ""))), v1, v2, -v1),
+                       ctx.where(f), sample={"cases": n})
+                return
+            if n > 20000:
+                break
+    ctx.ob(rid, "material-antisymmetric", True, "", ctx.where(f), sample={"cases": n, "piecewise": True})
+
+
 def r3_material(ctx):
     rid = "C11.R3"
     ctx.rule(rid, "evaluate_ongoing = f(board.white) - f(board.black) + piece_square_value(board) with the same callee f on both sides", floor=1)
@@ -234,7 +321,7 @@ def r3_material(ctx):
         ctx.lost(rid, "evaluate_ongoing has a loop")
         return
     if len(pes) != 1:
-        ctx.lost(rid, "evaluate_ongoing is not straight-line")
+        _material_by_cases(ctx, rid, f, pes)
         return
     t = pes[0].ret()
     ok, why = False, "shape is %s" % show(t)
